@@ -2,7 +2,7 @@
 functions have exactly the statement structure the model was written from (docstrings and log / comLog calls
 ignored), the lock structure is the one the atomic regions of the model rely on, and the constants"""
 import ast
-from translator import parse, find_class, find_func, find_assign, Shape, cnat, cbool, src, walk_type
+from translator import parse, find_class, find_func, find_assign, Shape, cnat, cbool, src, walk_type, is_self_attr
 
 FIO = 'frappy/io.py'
 FAS = 'frappy/lib/asynconn.py'
@@ -248,8 +248,118 @@ def initial_last_attempt():
     return 'nat', cnat(ast.literal_eval(find_assign(_cls(FIO, 'IOBase'), '_last_connect_attempt')))
 
 
+
+# ------------------------------------------------------------------ receive layer (coq/theories/C16/RxModel.v)
+def _flat(node):
+    return ''.join(src(node).split())
+
+
+def _rxbuffer_writes(func):
+    """every statement that assigns to self._rxbuffer, flattened, in source order"""
+    res = []
+    for n in sorted(walk_type(func, (ast.Assign, ast.AugAssign, ast.AnnAssign)), key=lambda n: (n.lineno, n.col_offset)):
+        targets = n.targets if isinstance(n, ast.Assign) else [n.target]
+        flat = []
+        for t in targets:
+            flat.extend(t.elts if isinstance(t, (ast.Tuple, ast.List)) else [t])
+        if any(is_self_attr(t, '_rxbuffer') for t in flat):
+            res.append(_flat(n))
+    return res
+
+
+_SEARCH = ('split', 'rsplit', 'find', 'rfind', 'index', 'rindex', 'partition', 'rpartition', 'search', 'match',
+           'startswith', 'endswith', 'splitlines', 'count')
+
+
+def _single_loop(func, name):
+    loops = [s for s in func.body if isinstance(s, ast.While)]
+    if len(loops) != 1 or len(walk_type(func, (ast.While, ast.For))) != 1:
+        raise Shape(f'{name}: expected exactly one while loop at the top level of the function')
+    return loops[0]
+
+
+def readline_splits_whole_buffer():
+    """AsynConn.readline: every pass of `while True:` starts with `splitted = self._rxbuffer.split(self.end_of_line, 1)`
+    (the WHOLE buffer is searched: no start offset, no other search of the buffer anywhere in the function), a hit is
+    taken by `line, self._rxbuffer = splitted` + `return line`, received data is appended by `self._rxbuffer += data`,
+    and these are the only writes to _rxbuffer (no slicing of the buffer)"""
+    f = _get('AsynConn.readline')
+    w = _single_loop(f, 'readline')
+    if _flat(w.test) != 'True':
+        raise Shape(f'readline: loop condition is {_flat(w.test)}')
+    body = [s for s in w.body if not _is_noise(s)]
+    if len(body) < 2 or _flat(body[0]) != 'splitted=self._rxbuffer.split(self.end_of_line,1)':
+        raise Shape(f'readline: the loop does not start with the split of the whole buffer: {_flat(body[0])[:120]}')
+    if _flat(body[1]) != 'iflen(splitted)==2:line,self._rxbuffer=splittedreturnline':
+        raise Shape(f'readline: a hit is not taken by `line, self._rxbuffer = splitted; return line`: {_flat(body[1])[:160]}')
+    searches = [_flat(c) for c in walk_type(f, ast.Call) if isinstance(c.func, ast.Attribute) and c.func.attr in _SEARCH]
+    if searches != ['self._rxbuffer.split(self.end_of_line,1)']:
+        raise Shape(f'readline: searches of the buffer: {searches}')
+    if _rxbuffer_writes(f) != ['line,self._rxbuffer=splitted', 'self._rxbuffer+=data']:
+        raise Shape(f'readline: writes to _rxbuffer: {_rxbuffer_writes(f)}')
+    if any(is_self_attr(n.value, '_rxbuffer') for n in walk_type(f, ast.Subscript)):
+        raise Shape('readline: the buffer is sliced')
+    return 'bool', 'true'
+
+
+def readbytes_slices_prefix():
+    """AsynConn.readbytes: loops `while len(self._rxbuffer) < nbytes:` appending with `self._rxbuffer += data`, then
+    `line = self._rxbuffer[:nbytes]`, `self._rxbuffer = self._rxbuffer[nbytes:]`, `return line`; no other write to
+    _rxbuffer"""
+    f = _get('AsynConn.readbytes')
+    w = _single_loop(f, 'readbytes')
+    if _flat(w.test) != 'len(self._rxbuffer)<nbytes':
+        raise Shape(f'readbytes: loop condition is {_flat(w.test)}')
+    k = f.body.index(w)
+    tail = [_flat(s) for s in f.body[k + 1:] if not _is_noise(s)]
+    if tail != ['line=self._rxbuffer[:nbytes]', 'self._rxbuffer=self._rxbuffer[nbytes:]', 'returnline']:
+        raise Shape(f'readbytes: after the loop: {tail}')
+    if _rxbuffer_writes(f) != ['self._rxbuffer+=data', 'self._rxbuffer=self._rxbuffer[nbytes:]']:
+        raise Shape(f'readbytes: writes to _rxbuffer: {_rxbuffer_writes(f)}')
+    return 'bool', 'true'
+
+
+def flush_recv_clears_buffer():
+    """AsynTcp.flush_recv: starts with `data = [self._rxbuffer]`, loops `while select.select([self.connection], [], [], 0)[0]:
+    data.append(self.recv())`, and ends with `self._rxbuffer = b''` (after the loop, unconditionally) followed by
+    `return b''.join(data)`; this is the only write to _rxbuffer"""
+    f = _get('AsynTcp.flush_recv')
+    body = [s for s in f.body if not _is_noise(s)]
+    flat = [_flat(s) for s in body]
+    want = ['data=[self._rxbuffer]', 'whileselect.select([self.connection],[],[],0)[0]:data.append(self.recv())',
+            "self._rxbuffer=b''", "returnb''.join(data)"]
+    if flat != want:
+        raise Shape(f'flush_recv: statements are {flat}')
+    if _rxbuffer_writes(f) != ["self._rxbuffer=b''"]:
+        raise Shape(f'flush_recv: writes to _rxbuffer: {_rxbuffer_writes(f)}')
+    return 'bool', 'true'
+
+
+def recv_empty_is_closed():
+    """AsynTcp.recv: non-empty data is returned, socket.timeout / TimeoutError gives b'', everything else (b'' from the
+    socket, ConnectionResetError) ends in `raise ConnectionClosed()`; the socket is read with its own time-out
+    (created by socket.create_connection(..., timeout=self.timeout))"""
+    f = _get('AsynTcp.recv')
+    body = [s for s in f.body if not _is_noise(s)]
+    if len(body) != 2 or not isinstance(body[0], ast.Try) or _flat(body[1]) != 'raiseConnectionClosed()':
+        raise Shape('recv: not `try: ... ; raise ConnectionClosed()`')
+    t = body[0]
+    if [_flat(s) for s in t.body] != ['data=self.connection.recv(8192)', 'ifdata:returndata']:
+        raise Shape(f'recv: try body {[_flat(s) for s in t.body]}')
+    hs = {_flat(h.type): [_flat(s) for s in h.body] for h in t.handlers}
+    if hs != {'(socket.timeout,TimeoutError)': ["returnb''"], 'ConnectionResetError': ['pass']} or t.orelse or t.finalbody:
+        raise Shape(f'recv: handlers {hs}')
+    init = find_func(_cls(FAS, 'AsynTcp'), '__init__')
+    cc = [_flat(c) for c in walk_type(init, ast.Call) if _flat(c.func) == 'socket.create_connection']
+    if cc != ['socket.create_connection((host,port),timeout=self.timeout)']:
+        raise Shape(f'AsynTcp.__init__: {cc}')
+    return 'bool', 'true'
+
+
 FACTS = [_shape_fact(k) for k in EXPECTED] + [lock_is_reentrant, communicate_atomic, multicomm_holds_lock,
-                                              read_is_connected_is_wrapped, trigger_all_registered, recv_slice_s,
+                                              read_is_connected_is_wrapped, trigger_all_registered,
+                                              readline_splits_whole_buffer, readbytes_slices_prefix,
+                                              flush_recv_clears_buffer, recv_empty_is_closed, recv_slice_s,
                                               default_timeout_s, default_interval_s, initial_last_attempt]
 
 FINGERPRINTS = {k: (lambda k=k: _get(k)) for k in EXPECTED}
